@@ -109,14 +109,18 @@ CHECKS = {
         design='DESIGN.md section 8, C05 and section 14'),
     'C07': dict(
         engine='objdiff',
-        technique='Coq proof (restriction of B-splines to a knot sub-range; slice matrix through the lifting lemma, any pardim) + differential run of the extracted transcription of split (incl. periodic roll) vs the implementation',
-        text=("Theorems in Properties/C07.v: on the domain of a piece that keeps knots a..a+m+q the full basis row is the piece's row at columns a..a+m-1 (local support, both sides, any "
-              "multiplicity), hence the control net sliced along any direction of any-pardim object, with the piece's basis, evaluates to the original. PARTIAL: the slice arithmetic of "
-              "split (cuts at full-multiplicity knots, tiling), BSplineBasis.roll / the periodic branch, append and subdivide are transcribed (Model/Split.v) and tied by correspondence; "
-              "the statement itself is evaluated on the implementation: number and domains of pieces tile the domain (one full period from the first split point; single point -> single "
-              "object), pieces non-periodic, each piece equals the original at random parameters of its sub-interval, split-then-append and subdivide reproduce the map."),
-        note=TB + " C07: known findings for periodic directions with fewer than order+continuity functions and for split at end() of non-open bases.",
-        design='DESIGN.md section 8, C07'),
+        technique='Coq proof (restriction of B-splines to a knot sub-range; slice matrix through the lifting lemma, any pardim; joining theorem at a C0 knot and its list-level instance for the knot vector and control net Curve.append builds) + differential run of the extracted transcriptions of split (incl. periodic roll) and append vs the implementation',
+        text=("Theorems in Properties/C07.v: (1,2) on the domain of a piece that keeps knots a..a+m+q the full basis row is the piece's row at columns a..a+m-1 (local support, both sides, any "
+              "multiplicity), hence the control net sliced along any direction of any-pardim object, with the piece's basis, evaluates to the original; (3) joining: a spline whose knot sequence has "
+              "q copies of e is, left of e, the spline over the left part with the first coefficients and, right of e, the spline over the right part with the remaining ones; (4) Curve.append: "
+              "with the merged knot vector of the model (first without its last knot, second shifted and without its first p knots) and the control net c1 ++ tl c2 the joined curve evaluates to the "
+              "first curve left of the junction and to the shifted second curve right of it (any order >= 2, any multiplicities, both sides). PARTIAL: the slice arithmetic of split (cuts at "
+              "full-multiplicity knots, tiling), BSplineBasis.roll / the periodic branch, the order/rationality unification inside append and subdivide are transcribed (Model/Split.v, "
+              "Model/Append.v) and tied by correspondence; the statement itself is evaluated on the implementation: number and domains of pieces tile the domain (one full period from the first "
+              "split point; single point -> single object), pieces non-periodic, each piece equals the original at random parameters of its sub-interval, split-then-append, append of two "
+              "independent curves of different order/rationality, and subdivide reproduce the maps."),
+        note=TB + " C07: known findings for periodic directions with fewer than order+continuity functions and for split at end() of non-open bases; append across a jump of the curve (knot of multiplicity >= order at the split point) is outside append's documented precondition and not asked.",
+        design='DESIGN.md section 8, C07 and section 14'),
     'C08': dict(
         engine='objdiff',
         technique='Coq proof (wrap invariance of the evaluator normalisation; dipole lemma for the jump between span polynomials; lifting lemma for rolls) + differential run of the extracted transcription of make_periodic / lower_periodic vs the implementation',
@@ -162,7 +166,7 @@ CHECKS = {
     'C13': dict(
         engine='factories',
         technique='Coq proof (conic identity, Bernstein/quartic weights from Cox-de Boor, regenerated circle nets and circle_segment rule, rotation placement, revolve/extrude sections) + regenerated kernels + differential run of control nets vs the extracted model + implicit-equation evaluation of every factory',
-        text=("PARTIAL proof level. Theorems in Properties/C13.v: three arc control points blended with quadratic Bernstein weights satisfy X^2+Y^2=r^2 W^2; quadratic B-splines on doubled "
+        text=("PARTIAL proof level. Theorems in Properties/C13.v: an ellipse is the (r1, r2)-scaled unit circle; on every span of an order-2 curve (lines, polygons, n_gon) the point is a convex combination of two consecutive control points and n_gon's vertices lie on the circle of radius r; three arc control points blended with quadratic Bernstein weights satisfy X^2+Y^2=r^2 W^2; quadratic B-splines on doubled "
               "knots are Bernstein weights and quartic B-splines on uniformly tripled knots have the stated closed forms (from the Cox-de Boor spec); the p2C0 and p4C1 nets regenerated from "
               "curve_factory.circle lie on the unit circle span by span (sqrt(2) read as the real square root); the regenerated circle_segment loop produces (r cos(i dt), r sin(i dt), w_i), "
               "every span lies on the circle, the arc runs from angle 0 to theta and the weights are positive; the placement built from the regenerated rotation_matrix maps planar points into "
@@ -209,11 +213,11 @@ CHECKS = {
         design='DESIGN.md section 8, C16'),
     'C17': dict(
         engine='topology',
-        technique='Coq proof (algebra of signed permutations for any parametric dimension, exhaustive group facts for pardim <= 3 by kernel computation, soundness of the compute search) + differential run of Orientation.compute vs the extracted model + cell-complex counts on random conforming complexes',
+        technique='Coq proof (algebra of signed permutations for any parametric dimension, exhaustive group facts for pardim <= 3 by kernel computation, soundness and completeness of the compute search) + differential run of Orientation.compute vs the extracted model + cell-complex counts on random conforming complexes',
         text=("PARTIAL proof level. Theorems in Properties/C17.v: composition of orientations is associative with the identity as unit and preserves well-formedness (any pardim); for pardim <= 3 "
               "the orientations are exactly the 2/8/48 signed permutations, closed under composition, each with a two-sided inverse (finite check inside the kernel); map_section and the index "
               "map of map_array are compatible with composition; an orientation returned by compute maps the (weight-normalised) control net of b onto that of a within the tolerances with "
-              "matching bases. Not proved (L2 only): the catalogue itself (one node per geometric entity, neighbours, boundary()), view_section, twins and handedness handling. "
+              "matching bases, and compute answers None only if no signed permutation of the directions passes that test (the itertools enumeration is complete: every duplicate-free arrangement and every sign vector is a candidate, any pardim). Not proved (L2 only): the catalogue itself (one node per geometric entity, neighbours, boundary()), view_section, twins and handedness handling. "
               "Correspondence: L1 Orientation.compute on re-oriented random objects vs the extracted model; L2 random conforming complexes (blocks, L/T/O shapes, 1-3 dimensions, orders 2-3, "
               "rational or not) with every patch in a random orientation and random insertion order: node counts vs the cell complex, neighbours, boundary, lookups of re-oriented entities, "
               "re-adding, tolerance-level perturbation; orientation laws on the implementation; twins, handedness, self-connected patches."),
